@@ -43,10 +43,17 @@ type c06Target struct {
 // compatible 2-fold codes per base
 var twoFold = map[byte]string{'A': "RMW", 'C': "YMS", 'G': "RKS", 'T': "YKW"}
 
-func c06Inputs(r *fw.Rng, measure string) ([]gen.FastaRec, []c06Target, string) {
+func c06Inputs(r *fw.Rng, measure string, wide bool) ([]gen.FastaRec, []c06Target, string) {
 	W := r.Range(8, 60)
 	if r.Chance(0.3) {
 		W = r.Range(61, 300)
+	}
+	if wide {
+		// genome-scale rows: differences spread over many kilobases (several buffer / block lengths)
+		W = r.Range(1030, 9000)
+		if r.Chance(0.25) {
+			W = r.Range(16500, 33000)
+		}
 	}
 	base := gen.Genome(r, W)
 	nq, nt := r.Range(1, 6), r.Range(1, 40)
@@ -59,7 +66,11 @@ func c06Inputs(r *fw.Rng, measure string) ([]gen.FastaRec, []c06Target, string) 
 		b   byte
 	}
 	var pool []sub
-	for i := 0; i < r.Range(2, 8); i++ {
+	npool := r.Range(2, 8)
+	if wide {
+		npool = r.Range(6, 24)
+	}
+	for i := 0; i < npool; i++ {
 		p := r.Intn(W)
 		pool = append(pool, sub{p, gen.OtherBase(r, base[p])})
 	}
@@ -267,7 +278,13 @@ func runC06(c *fw.Ctx, idx int) fw.Result {
 	var res fw.Result
 	r := fw.NewRng(c.Seed, "C06", idx)
 	measure := []string{"raw", "snp", "tn93"}[r.Intn(3)]
-	qs, ts, undefPos := c06Inputs(r, measure)
+	// genome-scale rows in one case out of sixteen, mostly under the measure and mode whose
+	// distance loop a maintainer would be tempted to cut short (snp, single nearest neighbour)
+	wide := r.Chance(0.06)
+	if wide && r.Chance(0.6) {
+		measure = "snp"
+	}
+	qs, ts, undefPos := c06Inputs(r, measure, wide)
 	nt := len(ts)
 	W := len(qs[0].Seq)
 	// all distances
@@ -289,6 +306,9 @@ func runC06(c *fw.Ctx, idx int) fw.Result {
 	}
 	sort.Float64s(occurring)
 	nKind := []string{"plain", "1", "2", "3", "T", "T+3"}[r.Intn(6)]
+	if wide && r.Chance(0.5) {
+		nKind = "plain"
+	}
 	n := 0
 	switch nKind {
 	case "1":
@@ -304,7 +324,7 @@ func runC06(c *fw.Ctx, idx int) fw.Result {
 	}
 	dKind := "none"
 	D := -1.0
-	if r.Chance(0.45) && len(occurring) > 0 {
+	if r.Chance(0.45) && len(occurring) > 0 && !(wide && nKind == "plain") {
 		switch r.Intn(3) {
 		case 0:
 			dKind = "occurring"
